@@ -8,6 +8,7 @@ import Holpy.C03.SubstProofs
 import Holpy.C03.MemoProofs
 import Holpy.C03.CacheProofs
 import Holpy.C03.FProofs
+import Holpy.C03.NormProofs
 /-
 C03 — term equality is alpha-equivalence; substitution is capture-free.
 
@@ -541,20 +542,44 @@ example : Term.mkLambda (.var "x" Ty.bool)
 
 /-! ### beta-normalisation -/
 
-/-- `beta_norm` (fuel model of the Python recursion): IF it returns, the result contains no
-redex, is well-typed at the same type and denotes the same in every standard model, valuation and
-environment.  NOT proved: that it returns on every well-typed term (strong normalisation of the
-simply typed lambda calculus). -/
-theorem betaNorm_sem_partial (M : Model) (ρ : Valuation) (hρ : Admissible M ρ) (fuel : Nat)
-    (bd : List Ty) (env : List Nat) (henv : EnvOK M bd env) (t t' : Term) (S : Ty)
-    (h : Term.checkedGetType bd t = .ok S) (hn : Term.betaNorm fuel t = .ok t') :
-    betaNormal t' = true ∧ Term.checkedGetType bd t' = .ok S ∧
-    sem M ρ bd env t' = sem M ρ bd env t :=
-  ⟨betaNorm_normal fuel t t' hn, sem_betaNorm M ρ hρ fuel bd env henv t t' S h hn⟩
+/-- `beta_norm` TERMINATES on every well-typed term: whenever `checked_get_type` succeeds on `t`
+(under any binder context `bd`), some recursion depth suffices for `t.beta_norm()` to return.  The
+strategy of the code (normalise `fun` and `arg`, contract at the root, normalise the contractum) is a
+hereditary substitution of a normal argument into a normal body; the proof is by induction on the
+size of the type of the bound variable, then on the body (`hsubst`). -/
+theorem betaNorm_terminates (bd : List Ty) (t : Term) (S : Ty)
+    (h : Term.checkedGetType bd t = .ok S) : ∃ fuel t', Term.betaNorm fuel t = .ok t' :=
+  betaNorm_terminates_aux t bd S h
 
-example : Term.betaNorm 10
+/-- non-vacuity: a well-typed term with a higher-order redex that creates a new redex when contracted -/
+example : Term.checkedGetType []
     (.comb (.abs "f" (Ty.fn Ty.bool Ty.bool) (.comb (.bound 0) (.comb (.bound 0) (.var "a" Ty.bool))))
-      (.abs "x" Ty.bool (.bound 0))) = .ok (.var "a" Ty.bool) := by rfl
+      (.abs "x" Ty.bool (.bound 0))) = .ok Ty.bool ∧
+    Term.betaNorm 10
+    (.comb (.abs "f" (Ty.fn Ty.bool Ty.bool) (.comb (.bound 0) (.comb (.bound 0) (.var "a" Ty.bool))))
+      (.abs "x" Ty.bool (.bound 0))) = .ok (.var "a" Ty.bool) := by constructor <;> rfl
+
+/-- The recursion depth is not observable: once `beta_norm` returns at some depth it returns the same
+term at every larger depth (for every term, well-typed or not). -/
+theorem betaNorm_depth_irrelevant (fuel fuel' : Nat) (t t' : Term)
+    (h : Term.betaNorm fuel t = .ok t') (hle : fuel ≤ fuel') : Term.betaNorm fuel' t = .ok t' :=
+  betaNorm_mono fuel fuel' t t' h hle
+
+example : Term.betaNorm 6
+    (.comb (.abs "f" (Ty.fn Ty.bool Ty.bool) (.comb (.bound 0) (.comb (.bound 0) (.var "a" Ty.bool))))
+      (.abs "x" Ty.bool (.bound 0))) = .ok (.var "a" Ty.bool) ∧
+    Term.betaNorm 60
+    (.comb (.abs "f" (Ty.fn Ty.bool Ty.bool) (.comb (.bound 0) (.comb (.bound 0) (.var "a" Ty.bool))))
+      (.abs "x" Ty.bool (.bound 0))) = .ok (.var "a" Ty.bool) := by constructor <;> rfl
+
+/-- `beta_norm` never raises TermException, on any term (well-typed or not): the only way not to
+return is to exhaust the recursion depth — the `beta_conv` it performs is always applied to a redex. -/
+theorem betaNorm_no_exception (fuel : Nat) (t : Term) (e : TErr)
+    (h : Term.betaNorm fuel t = .error e) : e = .fuel :=
+  betaNorm_error fuel t e h
+
+example : Term.betaNorm 40 (.comb (.abs "x" Ty.bool (.comb (.bound 0) (.bound 0)))
+    (.abs "x" Ty.bool (.comb (.bound 0) (.bound 0)))) = .error .fuel := by rfl
 
 /-- `beta_conv` on a well-typed redex (under any enclosing binders): the result is well-typed at the
 same type and denotes the same in every standard model, valuation and environment. -/
@@ -573,26 +598,33 @@ theorem betaConv_sem (M : Model) (ρ : Valuation) (hρ : Admissible M ρ) (bd : 
 example : Term.betaConv (.comb (.abs "x" Ty.bool (.comb (.var "g" (Ty.fn Ty.bool Ty.bool)) (.bound 0)))
     (.var "x" Ty.bool)) = .ok (.comb (.var "g" (Ty.fn Ty.bool Ty.bool)) (.var "x" Ty.bool)) := by rfl
 
-/-- `beta_norm`, complete statement of what holds without strong normalisation.  For EVERY recursion
-depth `fuel`: the answer is either a term or "depth exhausted" — never a TermException; and on every
-depth on which it returns, the result (1) contains no redex, (2) is well-typed at the same type,
-(3) denotes the same in every standard model, valuation and environment, and (4) is THE result: every
-larger depth returns the same term (the fuel is not observable; this is what `betaNorm_sem_partial`
-did not say).  What remains unproved is only that SOME depth suffices for every well-typed term
-(strong normalisation of the simply typed lambda calculus); for ill-typed terms none need exist,
-e.g. `(%x. x x) (%x. x x)`. -/
-theorem betaNorm_sem (M : Model) (ρ : Valuation) (hρ : Admissible M ρ) (fuel : Nat)
+/-- `beta_norm`, full statement.  For every well-typed term `t :: S` (under any binder context) there
+is a term `t'` such that `t.beta_norm()` RETURNS `t'` at some recursion depth and at every larger
+one, and at every depth whatsoever the answer is either `t'` or "depth exhausted" (Python:
+RecursionError) — never a TermException, never another term; `t'` contains no redex, is well-typed
+at the same type `S`, and denotes the same as `t` in every standard model, valuation and
+environment.  (For ill-typed terms no depth need suffice, e.g. `(%x. x x) (%x. x x)`.) -/
+theorem betaNorm_sem (M : Model) (ρ : Valuation) (hρ : Admissible M ρ)
     (bd : List Ty) (env : List Nat) (henv : EnvOK M bd env) (t : Term) (S : Ty)
     (h : Term.checkedGetType bd t = .ok S) :
-    (∀ e, Term.betaNorm fuel t = .error e → e = .fuel) ∧
-    (∀ t', Term.betaNorm fuel t = .ok t' →
+    ∃ fuel t', Term.betaNorm fuel t = .ok t' ∧
+      (∀ fuel', fuel ≤ fuel' → Term.betaNorm fuel' t = .ok t') ∧
+      (∀ fuel', Term.betaNorm fuel' t = .ok t' ∨ Term.betaNorm fuel' t = .error .fuel) ∧
       betaNormal t' = true ∧ Term.checkedGetType bd t' = .ok S ∧
-      sem M ρ bd env t' = sem M ρ bd env t ∧
-      ∀ fuel', fuel ≤ fuel' → Term.betaNorm fuel' t = .ok t') :=
-  ⟨fun e he => betaNorm_error fuel t e he, fun t' hn =>
-    ⟨betaNorm_normal fuel t t' hn, (sem_betaNorm M ρ hρ fuel bd env henv t t' S h hn).1,
-      (sem_betaNorm M ρ hρ fuel bd env henv t t' S h hn).2,
-      fun fuel' hle => betaNorm_mono fuel fuel' t t' hn hle⟩⟩
+      sem M ρ bd env t' = sem M ρ bd env t := by
+  obtain ⟨fuel, t', hn⟩ := betaNorm_terminates bd t S h
+  refine ⟨fuel, t', hn, fun fuel' hle => betaNorm_mono fuel fuel' t t' hn hle, ?_,
+    betaNorm_normal fuel t t' hn, (sem_betaNorm M ρ hρ fuel bd env henv t t' S h hn).1,
+    (sem_betaNorm M ρ hρ fuel bd env henv t t' S h hn).2⟩
+  intro fuel'
+  cases hr : Term.betaNorm fuel' t with
+  | error e => right; rw [betaNorm_error fuel' t e hr]
+  | ok t'' =>
+    left
+    have h1 := betaNorm_mono fuel (max fuel fuel') t t' hn (Nat.le_max_left _ _)
+    have h2 := betaNorm_mono fuel' (max fuel fuel') t t'' hr (Nat.le_max_right _ _)
+    rw [h1] at h2
+    exact h2.symm ▸ rfl
 
 example : Term.betaNorm 3
     (.comb (.abs "f" (Ty.fn Ty.bool Ty.bool) (.comb (.bound 0) (.comb (.bound 0) (.var "a" Ty.bool))))
